@@ -189,6 +189,9 @@ type c17RespStep struct {
 	Status uint32  `json:"status"`
 	CLen   *int    `json:"clen"` // the definition lists a Content-Length header with this value
 	Body   c17Body `json:"body"`
+	// Stack: "" = the raw responder alone behind net/http; Unary | ClientStream | ServerStream = the
+	// complete reference server (createServer), the raw response requested by that Connect RPC
+	Stack string `json:"stack,omitempty"`
 }
 type c17RespSeqIn struct {
 	Steps []c17RespStep `json:"steps"`
@@ -208,10 +211,34 @@ func c17RespSeq(in c17RespSeqIn) c17RespSeqOut {
 			raw.Headers = c17Headers([]c17Hdr{{N: "Content-Length", V: []string{strconv.Itoa(*st.CLen)}}})
 		}
 		c17RawBody(st.Body, raw)
+		if st.Stack != "" {
+			out.Steps = append(out.Steps, c17StackExchange(st, raw))
+			continue
+		}
 		out.Steps = append(out.Steps, c17Exchange(st.Proto, st.Method, raw, st.CLen != nil))
 	}
 	out.Oracle = c17Oracle(ps)
 	return out
+}
+
+func c17StackExchange(st c17RespStep, raw *conformancev1.RawHTTPResponse) c17Seen {
+	c17SrvOnce.Do(c17StartServer) // the plain clients
+	c17Real.once.Do(c17StartReal)
+	seen := c17Seen{Info: []int{}}
+	if c17Real.err != nil {
+		seen.Err = "start"
+		return seen
+	}
+	status, _, _, body, err := c17RawExchange(c17RawSrvIn{Proto: st.Proto, Proc: st.Stack, Codec: "proto"}, raw, "C17/raw response in a sequence")
+	if err != nil && status == 0 {
+		seen.Err = "do"
+		return seen
+	}
+	if err != nil {
+		seen.Err = "read"
+	}
+	seen.Status, seen.Body = status, gen.Hex(body)
+	return seen
 }
 
 // status: one raw response with the given status code.
@@ -320,7 +347,7 @@ func c17FinishStatus(status uint32) (int, error) {
 
 const c17FactsDomain = 1100
 
-func runC17Facts(_ *gen.Ctx) error {
+func runC17Facts(c *gen.Ctx) error {
 	// the whole domain 0..1100 (every code net/http can transmit, 100..999, and both sides of
 	// it), run-length encoded: (lo, hi, none) = passed on unchanged, (lo, hi, some v) = replaced by v
 	type run struct {
@@ -366,6 +393,25 @@ func runC17Facts(_ *gen.Ctx) error {
 	fmt.Fprintf(&sb, "def statusRuns : List (Nat × Nat × Option Nat) := [%s]\n\n", strings.Join(rs, ", "))
 	sb.WriteString("/-- the same for values far outside the range: (prescribed, passed to WriteHeader) -/\n")
 	fmt.Fprintf(&sb, "def statusProbes : List (Nat × Nat) := [%s]\n\n", strings.Join(probes, ", "))
+	// how rawRequestSender.RoundTrip makes the request it hands to the transport
+	ctor, assigned, err := c17SubReqFacts(c.RepoDir)
+	if err != nil {
+		return err
+	}
+	var qs []string
+	for _, a := range assigned {
+		qs = append(qs, strconv.Quote(a))
+	}
+	sb.WriteString("/-- rawRequestSender.RoundTrip (go/ast): the expression that creates the request handed to r.transport.RoundTrip -/\n")
+	fmt.Fprintf(&sb, "def subReqCtor : String := %s\n\n", strconv.Quote(ctor))
+	sb.WriteString("/-- ... and the fields of that request the function assigns afterwards -/\n")
+	fmt.Fprintf(&sb, "def subReqAssigned : List String := [%s]\n\n", strings.Join(qs, ", "))
+	var ps []string
+	for _, row := range c17SubReqProbe() {
+		ps = append(ps, fmt.Sprintf("(%s, %s, %s)", strconv.Quote(row[0]), row[1], row[2]))
+	}
+	sb.WriteString("/-- the request the real RoundTrip hands to a (capturing) transport: (verb/body/original request can rewind, GetBody != nil, Body is the pipe the raw body is written to) -/\n")
+	fmt.Fprintf(&sb, "def subReqProbe : List (String × Bool × Bool) := [%s]\n\n", strings.Join(ps, ", "))
 	sb.WriteString("end ConfModel.Generated.C17Facts\n")
 	out := ""
 	for i, a := range os.Args {
@@ -563,6 +609,16 @@ func runC17RespSeq(c *gen.Ctx) {
 		for k := r.Range(1, 3); k > 0; k-- {
 			steps = append(steps, c17RespStep{Proto: gen.Pick(r, []string{proto, proto, "h1", "h2c"}), Method: "POST", Status: gen.Pick(r, []uint32{0, 200, 201, 500, 799}),
 				Body: c17Body{Kind: "stream", Stream: c17FreshItems(r, fmt.Sprintf("sent%d", i))}})
+		}
+		if i%3 == 2 { // the whole sequence through the complete reference server
+			proc := gen.Pick(r, []string{"Unary", "Unary", "ServerStream", "ClientStream"})
+			for k := range steps {
+				steps[k].Stack, steps[k].Method = proc, "POST"
+				if steps[k].CLen != nil {
+					steps[k].CLen, steps[k].Status = nil, 204
+				}
+			}
+			e.Count("kind:respseq-full-stack")
 		}
 		jobs = append(jobs, c17RespSeqIn{steps})
 	}
